@@ -24,12 +24,54 @@ class _Out:
         self.w.append(s)
 
 
+class _In:
+    """Text file opened for reading: iteration / readline() give the lines with their newline; read(size) gives the
+    whole remainder when size is a block size (>= 4096; the files of this check are shorter than any block - stated),
+    read() / read(-1) the whole remainder."""
+
+    def __init__(self, text):
+        self.lines, self.i = list(text), 0
+
+    def __iter__(self):
+        return self
+
+    def __next__(self):
+        if self.i >= len(self.lines):
+            raise StopIteration
+        self.i += 1
+        return self.lines[self.i - 1]
+
+    def readline(self, size=-1):
+        from symx.items import TStr
+        return next(self, TStr(""))
+
+    def readlines(self):
+        return list(self)
+
+    def read(self, size=-1):
+        from symx.items import TStr
+        from symx.core import Unsupported
+        if size is not None and 0 <= size < 4096:
+            raise Unsupported("file.read(%r) with a size smaller than a block" % (size,))
+        rest = list(self)
+        return TStr("").join(rest) if rest else TStr("")
+
+    def close(self):
+        pass
+
+    def __enter__(self):
+        return self
+
+    def __exit__(self, *a):
+        return False
+
+
 def _lines_iter(lines, trailing_nl):
     from symx.items import TStr
     text = [TStr(l + "\n") for l in lines]
     if not trailing_nl:
         text[-1] = TStr(lines[-1])
-    return iter(text)
+    return _In(text)
 
 
 def sym(ctx, cfg):
@@ -68,9 +110,9 @@ def sym(ctx, cfg):
     try:
         T.pin_to_valid_tsv(_lines_iter(lines, nl), out, sep_column=TAB, sep_protein=COLON)
         got = [str.__str__(x) for x in out.w]
-        valid_out = T.is_valid_tsv(iter([TStr(x) for x in out.w]), sep_column=TAB)
+        valid_out = T.is_valid_tsv(_In([TStr(x) for x in out.w]), sep_column=TAB)
         out2 = _Out()
-        T.pin_to_valid_tsv(iter([TStr(x) for x in out.w]), out2, sep_column=TAB, sep_protein=COLON)
+        T.pin_to_valid_tsv(_In([TStr(x) for x in out.w]), out2, sep_column=TAB, sep_protein=COLON)
         valid_in = T.is_valid_tsv(_lines_iter(lines, nl), sep_column=TAB)
     except Unsupported:
         raise
